@@ -68,7 +68,7 @@ def sjoin(a, b):
 
 
 class State:
-    __slots__ = ('lists', 'iters', 'vars', 'elems', 'ends', 'counts', 'recycled')
+    __slots__ = ('lists', 'iters', 'vars', 'elems', 'ends', 'counts', 'recycled', 'bools')
 
     def __init__(self):
         self.lists = {}     # list key -> content
@@ -78,6 +78,7 @@ class State:
         self.ends = {}      # var id -> list key (var holds L.end())
         self.counts = {}    # local list key -> (lo, hi) total number of elements (a cursor walk does not change it)
         self.recycled = 0   # lower bound on the number of slots this call has cleared and recycled (or taken) so far
+        self.bools = {}     # local bool var id -> frozenset of (value or None, `recycled` when it was assigned): result variables
 
     def copy(self):
         s = State()
@@ -88,11 +89,13 @@ class State:
         s.ends = dict(self.ends)
         s.counts = dict(self.counts)
         s.recycled = self.recycled
+        s.bools = dict(self.bools)
         return s
 
     def key(self):
         return (tuple(sorted((k, str(v)) for k, v in self.lists.items())), tuple(sorted((k, str(v)) for k, v in self.iters.items())), tuple(sorted(self.vars.items())),
-                tuple(sorted((k, tuple(str(x) for x in v)) for k, v in self.elems.items())), tuple(sorted(self.ends.items())), tuple(sorted(self.counts.items())), self.recycled)
+                tuple(sorted((k, tuple(str(x) for x in v)) for k, v in self.elems.items())), tuple(sorted(self.ends.items())), tuple(sorted(self.counts.items())), self.recycled,
+                tuple(sorted((k, tuple(sorted(map(str, v)))) for k, v in self.bools.items())))
 
     def content(self, L):
         """Whole content of L including the parts split off by a cursor and the tracked elements."""
@@ -111,6 +114,8 @@ def join_states(a, b):
         return b.copy()
     s = State()
     s.recycled = min(a.recycled, b.recycled)
+    for v in set(a.bools) | set(b.bools):
+        s.bools[v] = frozenset(a.bools.get(v, frozenset())) | frozenset(b.bools.get(v, frozenset()))
     for L in set(a.counts) | set(b.counts):
         ca, cb = a.counts.get(L, (0, 0)), b.counts.get(L, (0, 0))
         s.counts[L] = (min(ca[0], cb[0]), max(ca[1], cb[1]))
@@ -265,6 +270,12 @@ class SlotInterp:
                         if v and fn.nodes[v]['cls'] == 'CXXBoolLiteralExpr' and fn.nodes[v].get('value'):
                             self.ob('B-true', fn, e['n'], st.recycled >= 1,
                                     '`return true` with no slot certainly consumed (cleared and recycled) on this path', reported)
+                        elif v and fn.nodes[v]['cls'] == 'DeclRefExpr' and (fn.decl(v) or {}).get('id') in st.bools:
+                            # single-exit style: the result variable may be true only from an assignment made after a slot was consumed
+                            bad = [x for x in st.bools[fn.decl(v)['id']] if x[0] is not False and x[1] < 1]
+                            self.ob('B-true', fn, e['n'], not bad,
+                                    'the result variable `%s` can be true here although no slot was certainly consumed (cleared and recycled) '
+                                    'when it got that value' % fn.decl(v).get('name'), reported)
                     self.step(fn, e['n'], st, binding, reported)
                 elif e['k'] == 'autodtor':
                     # a local list dies: its slots are destroyed (the slot destructor clears FULL ones, so nothing leaks) - but a FULL
@@ -488,7 +499,21 @@ class SlotInterp:
         o = fn.nodes[n]
         c = o['cls']
         self.stats['events'] += 1
+        if c == 'BinaryOperator' and o.get('op') == '=':
+            ks = fn.kids(n)
+            lhs = fn.strip_all_casts(ks[0])
+            if fn.nodes[lhs]['cls'] == 'DeclRefExpr' and (fn.decl(lhs) or {}).get('id') in st.bools:
+                r = fn.strip_all_casts(ks[1])
+                val = bool(fn.nodes[r].get('value')) if fn.nodes[r]['cls'] == 'CXXBoolLiteralExpr' else None
+                st.bools[fn.decl(lhs)['id']] = frozenset([(val, st.recycled)])
+            return
         if c == 'DeclStmt':
+            for v in o.get('decls', []):
+                vt = self.tu.type(v['t'])
+                if vt and not vt.get('ref') and vt.get('ptr') is None and vt.get('s', '').strip() == 'bool' and v.get('init'):
+                    r = fn.strip_all_casts(v['init'])
+                    val = bool(fn.nodes[r].get('value')) if fn.nodes[r]['cls'] == 'CXXBoolLiteralExpr' else None
+                    st.bools[v['id']] = frozenset([(val, st.recycled)])
             for v in o.get('decls', []):
                 vid = v['id']
                 init = v.get('init')
